@@ -211,9 +211,12 @@ def gen_mask(s: Choices, ds, kinds=("none", "bool", "slice", "positions")):
             v = s.draw(n + 2)
             return v if k in (1, 2) else -v
         return {"kind": "slice", "start": bound(), "stop": bound()}
-    style = s.weighted([(3, "sorted_unique"), (2, "unsorted"), (2, "repeated"), (2, "negative")])
+    style = s.weighted([(3, "sorted_unique"), (2, "unsorted"), (2, "repeated"), (2, "negative"), (1, "negative_ascending")])
     m = s.draw(n + 2)
-    if style == "negative":
+    if style == "negative_ascending":
+        # ascending as numbers, not as rows (negative positions wrap around)
+        pos = sorted(set(s.draw(n) - (n if s.draw(2) else 0) for _ in range(m + 1)))
+    elif style == "negative":
         # positions counted from the end mixed with ordinary ones (array-indexing semantics)
         pos = [s.draw(n) - (n if s.draw(2) else 0) for _ in range(m + 1)]
     elif style == "sorted_unique":
